@@ -2,9 +2,15 @@ pub mod common;
 pub mod c01;
 pub mod c02;
 pub mod c03;
+pub mod c05;
+pub mod c08;
+pub mod c09;
 pub mod c10;
 pub mod c11;
 pub mod c13;
+pub mod c14;
+pub mod c15;
+pub mod c20;
 
 use crate::out::Ctx;
 
@@ -14,11 +20,17 @@ pub fn dispatch(prop: &str, ctx: &Ctx, _rest: &[String]) -> bool {
         "c01" => c01::run(ctx),
         "c02" => c02::run(ctx),
         "c03" => c03::run(ctx),
+        "c05" => c05::run(ctx),
+        "c08" => c08::run(ctx),
+        "c09" => c09::run(ctx),
         "c10" => c10::run(ctx),
         "c11" => c11::run_c11(ctx),
         "c12" => c11::run_c12(ctx),
         "c11dbg" => c11::debug_classes(ctx),
         "c13" => c13::run(ctx),
+        "c14" => c14::run(ctx),
+        "c15" => c15::run(ctx),
+        "c20" => c20::run(ctx),
         _ => return false,
     }
     true
